@@ -1,0 +1,18 @@
+//go:build verif
+// +build verif
+
+package iparser
+
+// Contracts for package iparser (consumed by /verif/govc; comment-only file).
+
+//@ func NewGengineErrorListener
+//@   props C10
+//@   ensures fresh(result) && result != nil && len(result.GrammarErrors) == 0
+//@   modifies nothing
+//@   nopanic
+
+//@ func NewGengineParserListener
+//@   props C10 C08
+//@   ensures fresh(result) && result != nil && len(result.ParseErrors) == 0 && result.KnowledgeContext == ctx
+//@   modifies nothing
+//@   trusted stack.New() of golang-collections is outside the loaded contract set
